@@ -61,6 +61,102 @@ def parse_check_stderr(err):
     return cx, dead, cyc
 
 
+# ---- the --select VALUE: the same selection can be typed in several accepted ways ---------------------------------------------
+SPELLINGS = ("lower", "title", "upper", "mixed")
+FORMS = ("long", "short", "equals", "repeated")
+
+
+def spell(name, how, rng):
+    if how == "title":
+        return name[:1].upper() + name[1:]
+    if how == "upper":
+        return name.upper()
+    if how == "mixed":
+        out = "".join(ch.upper() if rng.random() < 0.5 else ch for ch in name)
+        return out if out != name else name[:-1] + name[-1].upper()
+    return name
+
+
+def select_args(sel, how, form, rng):
+    """the command-line words that select the analyses `sel`; `how` is applied to a random non-empty subset of the names
+    (so that lists mixing lower-case and other spellings occur), `form` is the syntactic form of the flag"""
+    names = list(sel)
+    if how != "lower":
+        idx = [i for i in range(len(names)) if rng.random() < 0.6] or [rng.randrange(len(names))]
+        names = [spell(n, how, rng) if i in idx else n for i, n in enumerate(names)]
+    if form == "short":
+        return ["-s", ",".join(names)], names
+    if form == "equals":
+        return ["--select=" + ",".join(names)], names
+    if form == "repeated":
+        return [w for n in names for w in ("--select", n)], names
+    return ["--select", ",".join(names)], names
+
+
+# ---- configuration DISCOVERED for the checked project (no --config): layouts with further configuration files that are not the project's --------
+CFG_KINDS = (".pyscn.toml", "pyproject.toml")
+
+
+def cfg_text(kind, mx):
+    if kind == "pyproject.toml":
+        return "[project]\nname = \"x\"\n\n[tool.pyscn.complexity]\nmax_complexity = %d\n" % mx
+    return "[complexity]\nmax_complexity = %d\n" % mx
+
+
+def gen_layout(rng):
+    """a project `proj` whose own configuration (if any) lies in proj or in its parent directory, with 0-2 sub-directories that carry
+    a configuration file of their own (a sub-project / vendored package) and functions sitting on every threshold in play"""
+    proj_cfg = None if rng.random() < 0.25 else [rng.choice(["target", "target", "parent"]), rng.choice(CFG_KINDS), rng.choice([5, 12])]
+    subs = rng.sample(["app", "zlib", "_first", "pkg/inner", "Vendor"], rng.choice([0, 1, 1, 1, 2]))
+    nested = [[d, rng.choice(CFG_KINDS), rng.choice([3, 25, 25]), rng.random() < 0.3] for d in subs]
+    top = rng.random() < 0.6
+    thresholds = sorted({10} | ({proj_cfg[2]} if proj_cfg else set()) | {n[2] for n in nested})
+    places = (["main.py"] if top else []) + ["%s/%s%s_mod.py" % (d, "deep/" if deep else "", d.replace("/", "_").lower()) for d, _, _, deep in nested]
+    places.append("lib_b/libb_mod.py" if rng.random() < 0.7 or not places else "setup.py")
+    funcs = []
+    for pth in places:
+        t = rng.choice(thresholds)
+        funcs.append([pth, [2, max(1, t + rng.choice([-1, 0, 1, 1, 3]))]])
+    return {"proj_cfg": proj_cfg, "nested": nested, "funcs": funcs, "sibling_cfg": rng.random() < 0.2}
+
+
+def write_layout(root, lay, configs):
+    """configs False: the Python files; configs True: the configuration files (written after the reference run of `analyze`, see below)"""
+    proj = os.path.join(root, "proj")
+    os.makedirs(proj, exist_ok=True)
+
+    def put(pth, text):
+        os.makedirs(os.path.dirname(pth), exist_ok=True)
+        with open(pth, "w") as f:
+            f.write(text)
+    if configs:
+        if lay["proj_cfg"]:
+            place, kind, mx = lay["proj_cfg"]
+            put(os.path.join(proj if place == "target" else root, kind), cfg_text(kind, mx))
+        for d, kind, mx, _deep in lay["nested"]:
+            put(os.path.join(proj, d, kind), cfg_text(kind, mx))
+        if lay.get("sibling_cfg"):
+            put(os.path.join(root, "other", ".pyscn.toml"), cfg_text(".pyscn.toml", 2))
+            put(os.path.join(root, "other", "o.py"), "O = 1\n")
+        return
+    for fi, (pth, ks) in enumerate(lay["funcs"]):
+        put(os.path.join(proj, pth), "\n\n".join(func_with_complexity("f%d_%d" % (fi, j), k) for j, k in enumerate(ks)) + "\nV%d = %d\n" % (fi, fi))
+
+
+def outer_config(start):
+    """a configuration file above the scratch directory would be every scenario's project configuration"""
+    d = os.path.abspath(start)
+    while True:
+        if os.path.exists(os.path.join(d, ".pyscn.toml")):
+            return os.path.join(d, ".pyscn.toml")
+        pp = os.path.join(d, "pyproject.toml")
+        if os.path.exists(pp) and "[tool.pyscn" in open(pp, errors="replace").read():
+            return pp
+        if os.path.dirname(d) == d:
+            return None
+        d = os.path.dirname(d)
+
+
 SEV_LETTER = {"critical": "c", "warning": "w", "info": "i"}
 RANK = {"info": 1, "warning": 2, "critical": 3}
 
@@ -73,8 +169,12 @@ def run(tier, seed, replay=None):
     res.assumptions += [
         "the model's inputs are the per-analysis results; they are taken from `pyscn analyze --json` on the same tree (that analyze and "
         "check agree per item is itself compared: the per-violation lines of check vs the items of analyze)",
+        "the reference for the discovered-configuration layouts is `analyze` on the same Python files before the configuration files are written: `analyze` "
+        "refuses a configuration whose max_complexity is not above the medium risk threshold 19 ('invalid configuration'), `check` accepts it (observed, not judged here)",
         "C19_gate assumes --max-cycles >= 0 (a negative limit is run on the real binary and recorded, not judged)",
-        "config discovery belongs to C17: config scenarios pass --config explicitly",
+        "WHERE a configuration file is looked for is C17's subject; here only layouts in which the project's configuration is unambiguous are used (at most one "
+        "file on the way from the target directory up to the scratch root, none above it — checked) and the claim is the gate's: the threshold is that file's "
+        "max_complexity (else 10), not the one of a file lying below or beside the target; the flag matrix passes --config explicitly",
         "the gate severity is `critical` (check has no severity flag; that a config `[dead_code] min_severity` cannot change it is a "
         "configuration-precedence matter examined under C17, not a gate matter)",
     ]
@@ -102,14 +202,16 @@ def run(tier, seed, replay=None):
                         for allow_circ in (False, True):
                             flag_axis.append((sel, mc, cfg, allow_dead, maxcyc, allow_circ))
     rng.shuffle(flag_axis)
-    per_project = (40 if tier == "quick" else 160) * mult
+    per_project = (48 if tier == "quick" else 160) * mult
     if replay:
         rp = json.load(open(replay))["replay"]
         if "project" in rp and "flags" in rp:
             proj_specs = [tuple(rp["project"])] + proj_specs
     # build projects and collect analyze results once per (project, config)
     nruns, diffs, nontrivial = 0, 0, set()
-    hist = {"exit0": 0, "exit1": 0, "by_gate": {"complexity": 0, "deadcode": 0, "deps": 0}}
+    hist = {"exit0": 0, "exit1": 0, "by_gate": {"complexity": 0, "deadcode": 0, "deps": 0},
+            "select_spelling": {k: 0 for k in SPELLINGS}, "select_form": {k: 0 for k in FORMS}, "select_spelling_rejected": 0,
+            "gated_violation_under_nonlower_spelling": 0}
     samples = []
     try:
         for pi, (cx, dead, ncyc) in enumerate(proj_specs):
@@ -138,9 +240,19 @@ def run(tier, seed, replay=None):
                          for ac in (False, True)]
             lines, meta = [], []
             for (sel, mc, cfg, allow_dead, maxcyc, allow_circ) in picks:
-                args = ["check", "--skip-clones"] if sel is None else ["check", "--select", ",".join(sel)]
-                if sel is None and rng.random() < 0.3:
-                    args = ["check"]
+                if sel is None:
+                    args = ["check", "--skip-clones"]
+                    if rng.random() < 0.3:
+                        args = ["check"]
+                else:
+                    # the selection is a SET of analyses: how its members are typed (letter case, as far as the tool accepts it) and the
+                    # syntactic form of the flag are part of "every combination of --select"
+                    how = "lower" if rng.random() < 0.6 else rng.choice(SPELLINGS[1:])
+                    form = "long" if rng.random() < 0.6 else rng.choice(FORMS[1:])
+                    words, typed = select_args(sel, how, form, rng)
+                    args = ["check"] + words
+                    hist["select_spelling"][how] += 1
+                    hist["select_form"][form] += 1
                 if mc is not None:
                     args += ["--max-complexity", str(mc)]
                 cfgmax, gate = 0, "critical"
@@ -175,14 +287,18 @@ def run(tier, seed, replay=None):
                 line = "gate %s %d %d %d %d %d %d %s %s 0 %d 0" % (selmask, 10 if mc is None else mc, 1 if mc is not None else 0, int(allow_dead),
                                                                   int(skip_clones), int(allow_circ), 0 if maxcyc is None else maxcyc, cx_tok, dead_tok, len(cycles))
                 lines.append(line)
-                meta.append((args, rc, err, mc, cfgmax, gate, sel, allow_dead, maxcyc, allow_circ))
+                meta.append((args, rc, err, mc, cfgmax, gate, sel, allow_dead, maxcyc, allow_circ, None if sel is None else how))
             want = C.driver_batch(lines) if os.path.exists(C.driver_path()) else None
             if want is None:
                 ps.ok = False
                 ps.broken.append("driver missing")
                 continue
-            for line, w, (args, rc, err, mc, cfgmax, gate, sel, allow_dead, maxcyc, allow_circ) in zip(lines, want, meta):
+            for line, w, (args, rc, err, mc, cfgmax, gate, sel, allow_dead, maxcyc, allow_circ, how) in zip(lines, want, meta):
                 exp_rc = 0 if w == "1" else 1
+                if how not in (None, "lower") and rc != 0 and "invalid --select flag" in err:
+                    # the tool is free to refuse a spelling (usage error, non-zero); what it ACCEPTS it must honour
+                    hist["select_spelling_rejected"] += 1
+                    continue
                 hist["exit0" if rc == 0 else "exit1"] += 1
                 nontrivial.add(line + "|%d" % pi)
                 info = {"project": [cx, dead, ncyc], "flags": args, "exit": rc, "model_line": line, "stderr": err[-600:]}
@@ -208,6 +324,8 @@ def run(tier, seed, replay=None):
                     hist["by_gate"]["deadcode"] += 1
                 if want_cyc:
                     hist["by_gate"]["deps"] += 1
+                if how not in (None, "lower") and (want_cx or want_dead or want_cyc):
+                    hist["gated_violation_under_nonlower_spelling"] += 1
                 if pcx != want_cx:
                     res.violation("check prints complexity violations %s, analyze reports %s" % (sorted(pcx), sorted(want_cx)), info)
                 elif pdead != want_dead:
@@ -308,6 +426,114 @@ def run(tier, seed, replay=None):
                     res.known_finding(k, "(%s)" % msg)
                 else:
                     res.violation(msg, {"signature": sig, "files": files, "flags": flags, "check_exit": rc, "analyze_has_violation": viol, "stderr": err[-400:]})
+        # ---- "explicit flag, else config, else 10" when the configuration is DISCOVERED (no --config): the configuration of the checked project is
+        # the file found from the target directory upwards (the one `analyze` reads for the same target).  Layouts in which this is unambiguous
+        # (at most one file on the way up) but which hold FURTHER configuration files that are not the project's: in sub-directories of the target
+        # (sub-project, vendored package), next to the target.  None of these may move the threshold, wherever the sub-directory sorts, whichever way
+        # the target is named, whatever --select says; --max-complexity and an explicit --config still win.
+        hist.update({"discovery_layouts": 0, "discovery_runs": 0, "discovery_nested_cfg_runs": 0, "discovery_threshold_source": {"flag": 0, "explicit-config": 0, "project-config": 0, "default": 0},
+                     "discovery_target_form": {"rel": 0, "abs": 0, "dot": 0, "noarg": 0, "slash": 0}, "discovery_decided_by_choice_of_config": 0})
+        outer = outer_config(tmp)
+        layouts = []
+        if outer:
+            res.notes.append("configuration discovery scenarios skipped: %s lies above the scratch directory" % outer)
+        else:
+            # a fixed core (each kind of project configuration × a looser / stricter nested file in a sub-directory walked before / after the
+            # other files, the violation inside / outside the sub-project) + seeded layouts
+            for pc in ([["target", ".pyscn.toml", 12]], [["target", "pyproject.toml", 12]], [["parent", ".pyscn.toml", 12]], [None]):
+                for sub in ("app", "zlib"):
+                    for nk in CFG_KINDS:
+                        nmax = rng.choice([3, 25])
+                        eff0 = pc[0][2] if pc[0] else 10
+                        lo, hi = sorted((eff0, nmax))
+                        k = rng.choice([lo + 1, hi, (lo + hi) // 2 + 1])      # passes one of the two thresholds and fails the other
+                        layouts.append({"proj_cfg": pc[0], "nested": [[sub, nk, nmax, rng.random() < 0.3]], "sibling_cfg": False,
+                                        "funcs": [[sub + "/" + sub + "_mod.py", [2]], ["lib_b/libb_mod.py" if rng.random() < 0.5 else "setup.py", [2, k]]] +
+                                                 ([["main.py", [1]]] if rng.random() < 0.5 else [])})
+            rng.shuffle(layouts)
+            layouts = layouts[:(10 if tier == "quick" else 16) * mult]
+            layouts += [gen_layout(rng) for _ in range((26 if tier == "quick" else 150) * mult)]
+        if replay and "layout" in rp:
+            layouts = [rp["layout"]] + layouts
+        explicit = os.path.join(tmp, "explicit_7.toml")
+        with open(explicit, "w") as f:
+            f.write(cfg_text(".pyscn.toml", 7))
+        for li, lay in enumerate(layouts):
+            root = os.path.join(tmp, "lay%d" % li, "w")
+            # the reference (which functions, which complexities) is `analyze` on the same Python files BEFORE the configuration files exist:
+            # `analyze` validates a configuration file and refuses one whose max_complexity is not above the medium risk threshold (19), which
+            # `check` accepts; the claim examined here is the gate's threshold, not that both commands accept the same configuration values
+            write_layout(root, lay, False)
+            proj = os.path.join(root, "proj")
+            rc, data, err = C.pyscn_json(["proj"], root, extra=["--select", "complexity", "--min-complexity", "1"])
+            nruns += 1
+            write_layout(root, lay, True)
+            if data is None:
+                res.violation("analyze produced no report on a project with nested configuration files: " + err[-300:], {"layout": lay})
+                continue
+            funcs = [(os.path.basename(f["FilePath"]), f["StartLine"], f["Name"], f["Metrics"]["Complexity"]) for f in (data["complexity"]["Functions"] or [])]
+            exp_funcs = sorted(k for _, ks in lay["funcs"] for k in ks)
+            got_named = sorted(c for (_, _, n, c) in funcs if re.match(r"f\d+_\d+$", n))      # analyze also lists the module body of every file
+            if got_named != exp_funcs:
+                res.notes.append("layout %s: analyze reports complexities %s, the generator intended %s (analyze is the reference)" % (lay, sorted(c for (_, _, _, c) in funcs), exp_funcs))
+            hist["discovery_layouts"] += 1
+            pmax = lay["proj_cfg"][2] if lay["proj_cfg"] else 0
+            variants = [(["complexity"], None, False), (None, None, False), (["complexity"], rng.choice([3, 10, 12, 25]), False), (["complexity"], None, True),
+                        (rng.choice([["complexity", "deadcode"], ["complexity", "deps"], ["complexity", "clones"], ["deadcode", "deps"]]), None, False)]
+            lines, meta = [], []
+            for (sel, mc, use_explicit) in variants:
+                tform = rng.choice(["rel", "rel", "abs", "dot", "noarg", "slash"])
+                args = ["check", "--skip-clones"] if sel is None else ["check", "--select", ",".join(sel)]
+                if mc is not None:
+                    args += ["--max-complexity", str(mc)]
+                if use_explicit:
+                    args += ["--config", explicit]
+                cwd, targ = {"rel": (root, ["proj"]), "abs": (root, [proj]), "dot": (proj, ["."]), "noarg": (proj, []), "slash": (root, ["proj/"])}[tform]
+                rc, out, err = C.pyscn(args + targ, cwd=cwd)
+                nruns += 1
+                cfgmax = 7 if use_explicit else pmax
+                selmask = "-" if sel is None else "".join("1" if a in sel else "0" for a in ANALYSES)
+                line = "gate %s %d %d 0 %d 0 0 %d:%s c: 0 0 0" % (selmask, 10 if mc is None else mc, 1 if mc is not None else 0, int(sel is None), cfgmax,
+                                                                ",".join(str(c) for (_, _, _, c) in funcs))
+                lines.append(line)
+                meta.append((args + targ, tform, rc, err, sel, mc, cfgmax, use_explicit))
+            want = C.driver_batch(lines) if os.path.exists(C.driver_path()) else None
+            if want is None:
+                ps.ok = False
+                ps.broken.append("driver missing")
+                break
+            for line, w, (args, tform, rc, err, sel, mc, cfgmax, use_explicit) in zip(lines, want, meta):
+                exp_rc = 0 if w == "1" else 1
+                eff = mc if mc is not None else (cfgmax if cfgmax > 0 else 10)
+                src = "flag" if mc is not None else "explicit-config" if use_explicit else "project-config" if pmax > 0 else "default"
+                hist["discovery_runs"] += 1
+                hist["discovery_threshold_source"][src] += 1
+                hist["discovery_target_form"][tform] += 1
+                hist["discovery_nested_cfg_runs"] += 1 if lay["nested"] else 0
+                hist["exit0" if rc == 0 else "exit1"] += 1
+                nontrivial.add(line + "|lay%d|%s" % (li, tform))
+                cx_on = sel is None or "complexity" in sel
+                # would one of the files that are NOT the project's configuration give another verdict?
+                if cx_on and src in ("project-config", "default"):
+                    others = [n[2] for n in lay["nested"]] + ([2] if lay.get("sibling_cfg") else [])
+                    if any(any(c > o for (_, _, _, c) in funcs) != any(c > eff for (_, _, _, c) in funcs) for o in others):
+                        hist["discovery_decided_by_choice_of_config"] += 1
+                info = {"layout": lay, "flags": args, "cwd": "proj" if tform in ("dot", "noarg") else "parent of proj", "exit": rc, "model_line": line,
+                        "effective_max_expected": eff, "threshold_source": src, "stderr": err[-600:]}
+                if rc not in (0, 1):
+                    res.violation("pyscn %s exited with status %d" % (" ".join(args), rc), info)
+                    continue
+                if rc != exp_rc:
+                    diffs += 1
+                    res.violation("pyscn %s: exit %d; the effective maximum complexity is %d (%s) and the gate model (fed with what `analyze` reports for the "
+                                  "same tree) says %d" % (" ".join(args), rc, eff, src, exp_rc), info)
+                    continue
+                pcx, pdead, pcyc = parse_check_stderr(err)
+                want_cx = {(f, l, n, c, eff) for (f, l, n, c) in funcs if c > eff} if cx_on else set()
+                if want_cx:
+                    hist["by_gate"]["complexity"] += 1
+                if pcx != want_cx:
+                    res.violation("check prints complexity violations %s, analyze reports %s against the effective maximum %d (%s)" % (sorted(pcx), sorted(want_cx), eff, src), info)
         # the excluded point of C19_gate: a negative --max-cycles
         root = os.path.join(tmp, "neg")
         write_project(os.path.join(root, "proj"), [2], [], 0)
@@ -324,7 +550,11 @@ def run(tier, seed, replay=None):
         "distinct_nontrivial": len(nontrivial),
         "rule": "projects sitting on each boundary (a function of complexity max-1/max/max+1 for the flag, config and default thresholds; "
                 "dead code none/critical/warning-only; 0/1/2 import cycles) × seeded sample of the matrix --select subset × --max-complexity "
-                "× config (max_complexity / min_severity) × --allow-dead-code × --max-cycles × --allow-circular-deps; every run is distinct",
+                "× config (max_complexity / min_severity) × --allow-dead-code × --max-cycles × --allow-circular-deps; every run is distinct; "
+                "the --select value typed in every accepted way (letter case per member, -s / --select=a,b / repeated flag); "
+                "discovered configuration: project configuration in the target / its parent / absent (.pyscn.toml or pyproject.toml) × 0-2 sub-directories with a "
+                "configuration file of their own (looser / stricter, sorting before / after the other files, one level deeper) × functions on every threshold in play "
+                "× no flag / --max-complexity / explicit --config × select × how the target is named (relative, absolute, '.', none, trailing slash)",
         "samples": samples,
         "traces_validated_against_impl": nruns - diffs,
         "distribution": hist,
